@@ -11,6 +11,7 @@ import (
 	"path/filepath"
 	"strings"
 	"sync"
+	"sync/atomic"
 	"syscall"
 	"testing"
 	"time"
@@ -26,13 +27,29 @@ import (
 
 const binSecret = "binary-secret-0123456789abcdef"
 
+var portCounter uint32
+
+// freePort returns a port for the program under test to listen on. It lies below the range the kernel uses for
+// the source ports of outgoing connections (32768-60999): a port handed out by the kernel for ":0" can be taken
+// by some client connection of another test between our closing it and the program's bind. Processes use
+// disjoint blocks (by pid), and a candidate is only returned if it could be bound a moment ago.
 func freePort(t fataler) int {
-	l, err := net.Listen("tcp", "127.0.0.1:0")
-	if err != nil {
-		t.Fatalf("no free port: %v", err)
+	block := 10000 + (os.Getpid()%200)*100
+	for i := 0; i < 300; i++ {
+		n := int(atomic.AddUint32(&portCounter, 1))
+		port := block + n%100
+		if i >= 100 {
+			port = 10000 + (os.Getpid()*7+n*13)%20000 // the block is busy: anywhere in the range
+		}
+		l, err := net.Listen("tcp", fmt.Sprintf("127.0.0.1:%d", port))
+		if err != nil {
+			continue
+		}
+		l.Close()
+		return port
 	}
-	defer l.Close()
-	return l.Addr().(*net.TCPAddr).Port
+	t.Fatalf("positive control: no free port")
+	return 0
 }
 
 // TestC11Binary drives the real prunner binary: SIGINT = graceful, SIGTERM = forced shutdown.
@@ -42,7 +59,7 @@ func TestC11Binary(t *testing.T) {
 		t.Skipf("prunner binary not built: %v", err)
 	}
 	vh := helper(t)
-	col := ev.Get("C11", "binary", "the real prunner binary (go build ./cmd/prunner from the tree under test) with a generated pipelines.yml of 'vhelper hang' tasks (two-task chain, concurrency 1, queue) is started, 2-4 jobs are scheduled over HTTP, and SIGINT (graceful) or SIGTERM (forced) is sent at a generated instant, in half of the cases followed 1-60 ms later by a reload request (SIGUSR1), in a third of the SIGINT cases followed by SIGTERM, and always accompanied by schedule requests every 15 ms until the process is gone; oracle: every job accepted during the shutdown is in the store in a terminal state, the program does not crash, the process exits within the bound (graceful: remaining task time + 3 s; forced: 2 s kill timeout + 3 s), data.json loads and holds every accepted job in a terminal state; SIGINT => the running job ran both tasks to their end and is reported completed, waiting jobs are canceled and never ran; SIGTERM => no helper process is alive afterwards and the running job is reported canceled; non-trivial = a job was running and another waiting when the signal arrived; distinct by (signal, instant, task duration)")
+	col := ev.Get("C11", "binary", "the real prunner binary (go build ./cmd/prunner from the tree under test) with a generated pipelines.yml of 'vhelper hang' tasks (two-task chain, concurrency 1, queue) is started, 2-4 jobs are scheduled over HTTP, and SIGINT (graceful) or SIGTERM (forced) is sent at a generated instant, in half of the cases followed 1-60 ms later by a reload request (SIGUSR1), SIGINT may be followed by SIGTERM or by a second SIGINT (which must change nothing), and always accompanied by schedule requests every 15 ms until the process is gone; oracle: every job accepted during the shutdown is in the store in a terminal state, the program does not crash, the process exits within the bound (graceful: remaining task time + 3 s; forced: 2 s kill timeout + 3 s), data.json loads and holds every accepted job in a terminal state; SIGINT => the running job ran both tasks to their end and is reported completed, waiting jobs are canceled and never ran; SIGTERM => no helper process is alive afterwards and the running job is reported canceled; non-trivial = a job was running and another waiting when the signal arrived; distinct by (signal, instant, task duration)")
 	auth := jwtauth.New("HS256", []byte(binSecret), nil)
 	_, token, _ := auth.Encode(map[string]interface{}{"sub": "bin"})
 	rapid.Check(t, func(rt *rapid.T) {
@@ -105,8 +122,10 @@ func TestC11Binary(t *testing.T) {
 			}
 			ids = append(ids, id)
 		}
+		// how the operator ends the program: SIGTERM, SIGINT, SIGINT then SIGTERM, or SIGINT twice
+		how := rapid.SampledFrom([]string{"SIGTERM", "SIGINT", "SIGINT+SIGTERM", "SIGINT+SIGINT"}).Draw(rt, "how")
 		sig := syscall.SIGINT
-		if rapid.Bool().Draw(rt, "sigterm") {
+		if how == "SIGTERM" {
 			sig = syscall.SIGTERM
 		}
 		time.Sleep(time.Duration(rapid.IntRange(0, durMs*3/2).Draw(rt, "signalAfterMs")) * time.Millisecond)
@@ -141,11 +160,17 @@ func TestC11Binary(t *testing.T) {
 			}
 		}()
 		// a graceful shutdown that the operator loses patience with: SIGINT, then SIGTERM
-		escalate := sig == syscall.SIGINT && rapid.IntRange(0, 2).Draw(rt, "sigtermAfterSigint") == 0
+		escalate := how == "SIGINT+SIGTERM"
 		if escalate {
 			time.Sleep(time.Duration(rapid.IntRange(5, durMs).Draw(rt, "escalateAfterMs")) * time.Millisecond)
 			sent = time.Now()
 			_ = cmd.Process.Signal(syscall.SIGTERM)
+		}
+		// ... or repeats the request: a second SIGINT asks for the same thing and changes nothing
+		repeat := how == "SIGINT+SIGINT"
+		if repeat {
+			time.Sleep(time.Duration(rapid.IntRange(5, durMs).Draw(rt, "repeatAfterMs")) * time.Millisecond)
+			_ = cmd.Process.Signal(syscall.SIGINT)
 		}
 		bound := time.Duration(2*durMs)*time.Millisecond + 3*time.Second
 		if sig == syscall.SIGTERM || escalate {
@@ -221,7 +246,7 @@ func TestC11Binary(t *testing.T) {
 		if alive := aliveWithMarker(marker); len(alive) > 0 {
 			rt.Fatalf("[C11] %v: %d task processes are alive after prunner exited", sig, len(alive))
 		}
-		col.Add(fmt.Sprintf("%v/%d/%d/%d/%v/%v", sig, durMs, nJobs, readyAtSignal, reloadDuring, escalate), running > 0 && waiting > 0, map[string]int{"signal:" + sig.String(): 1, "running+waiting": btoi(running > 0 && waiting > 0), "reload-request-during-shutdown": btoi(reloadDuring), "sigint-then-sigterm": btoi(escalate), "accepted-during-shutdown": btoi(len(lateIDs) > 0)}, nJobs,
+		col.Add(fmt.Sprintf("%v/%d/%d/%d/%v/%v/%v", sig, durMs, nJobs, readyAtSignal, reloadDuring, escalate, repeat), running > 0 && waiting > 0, map[string]int{"signal:" + sig.String(): 1, "running+waiting": btoi(running > 0 && waiting > 0), "reload-request-during-shutdown": btoi(reloadDuring), "sigint-then-sigterm": btoi(escalate), "sigint-twice": btoi(repeat), "accepted-during-shutdown": btoi(len(lateIDs) > 0)}, nJobs,
 			map[string]interface{}{"signal": sig.String(), "task_ms": durMs, "jobs": nJobs, "tasks_started_at_signal": readyAtSignal, "exit_after_ms": took.Milliseconds()})
 	})
 }
